@@ -58,7 +58,10 @@ def between_marker(loc):
 
 def feature_label(f):
     q = {k: [str(x) for x in (v if isinstance(v, (list, tuple)) else [v])] for k, v in sorted(f.qualifiers.items())}
-    return "%s|%s|%s" % (f.type, f.id, json.dumps(q, sort_keys=True))
+    # the operator of a compound location (GenBank `order(...)` vs `join(...)`) says how the parts relate: it is part of
+    # what the feature IS, not of where it lies, and is carried like type and qualifiers
+    op = getattr(f.location, "operator", "join") if f.location is not None and len(f.location.parts) > 1 else "join"
+    return "%s|%s|%s%s" % (f.type, f.id, json.dumps(q, sort_keys=True), "" if op == "join" else "|op=" + str(op))
 
 
 def meta_token(rec):
